@@ -230,12 +230,24 @@ func AddStandardFilters(fd FilterDictionary) { //nolint: gocyclo
 	fd.AddFilter("truncatewords", func(s string, length func(int) int, ellipsis func(string) string) string {
 		el := ellipsis("...")
 		n := length(15)
-		re := regexp.MustCompile(fmt.Sprintf(`^(?:\s*\S+){%d}`, n))
-		m := re.FindString(s)
-		if m == "" {
-			return s
+		// find the end of the n-th word; the ellipsis is added only if words are dropped
+		words, inWord, end := 0, false, -1
+		for i, r := range s {
+			switch {
+			case unicode.IsSpace(r):
+				if inWord && words == n {
+					end = i
+				}
+				inWord = false
+			case !inWord:
+				if words == n && end >= 0 {
+					return s[:end] + el
+				}
+				inWord = true
+				words++
+			}
 		}
-		return m + el
+		return s
 	})
 	fd.AddFilter("upcase", func(s, suffix string) string {
 		return strings.ToUpper(s)
